@@ -10,6 +10,7 @@ package main
 // run:  exit=<n> out=<hex> nerr=<number of "failed to process JSON line" log lines>
 
 import (
+	"context"
 	"bytes"
 	"encoding/json"
 	"fmt"
@@ -140,7 +141,9 @@ func jlLibTemplates(cols []jlCol) (jsonline.Template, jsonline.Template) {
 
 func runJl(dir string, args []string, stdin []byte) string {
 	bin := os.Getenv("VERIF_JL")
-	cmd := exec.Command(bin, args...)
+	ctx, cancel := context.WithTimeout(context.Background(), 60*time.Second) // a command that hangs is stopped (exit -1)
+	defer cancel()
+	cmd := exec.CommandContext(ctx, bin, args...)
 	cmd.Dir = dir
 	cmd.Env = append(os.Environ(), "TZ=UTC", "HOME="+dir)
 	cmd.Stdin = bytes.NewReader(stdin)
